@@ -71,12 +71,9 @@ theorem place_nil (roots : List Tree) (d : Dir) :
 
 theorem place_cons (f : Frame) (below : List Frame) (roots : List Tree) (d : Dir) :
     place (f :: below) roots d =
-      if admits f.d.kind d.kind then
-        if isHTTPMethod d.kind && d.hasPath && f.d.kind == Kind.URL then
-          if anyExplicit (f :: below) then .error (.pathMethodInExplicit d.id)
-          else .ok { frames := [{ d := d }], roots := closeAll (f :: below) roots }
-        else .ok { frames := { d := d } :: f :: below, roots := roots }
-      else if f.d.explicit then .error (.incorrectContext d.id)
+      if admitsDir f.d d then .ok { frames := { d := d } :: f :: below, roots := roots }
+      else if f.d.explicit then
+        (if admits f.d.kind d.kind then .error (.pathMethodInExplicit d.id) else .error (.incorrectContext d.id))
       else place (pop f below roots).1 (pop f below roots).2 d := by
   cases below with
   | nil => rw [place]; rfl
@@ -161,18 +158,10 @@ theorem place_flat (frames : List Frame) (roots : List Tree) (d : Dir) (c : Ctx)
   | cons f below roots ih =>
     rw [place_cons]
     split
+    · intro h; cases h
+      simp [flat, openFlatten]
     · split
-      · split
-        · intro h; cases h
-        · rename_i hx
-          intro h; cases h
-          have := closeAll_flat (f :: below) roots (by simpa using hx)
-          simp only [flat] at this ⊢
-          simp [this, openFlatten]
-      · intro h; cases h
-        simp [flat, openFlatten]
-    · split
-      · intro h; cases h
+      · split <;> (intro h; cases h)
       · rename_i hx
         intro h
         rw [ih h, flat_pop]
